@@ -166,6 +166,10 @@ func (fc *FnCtx) staticCall(res ssa.Value, f *ssa.Function, c *ssa.CallCommon, i
 	if con.Kind == "extern" {
 		fc.noteExtern(name + " (contract)")
 	}
+	if f.Signature.Recv() != nil && len(args) > 0 {
+		names = append(names, "recv")
+		args = append(args, args[0])
+	}
 	setRes(fc.applyContract(con, names, args, f.Signature, freshRes, pos, fc.callMods(c)))
 	if con.NoReturn {
 		fc.curReach = "false"
